@@ -101,3 +101,37 @@ def val_be_word(w):
 @lemma('int', requires='n == 4', fuel=5)
 def pow256_4(n):
     return pow256(n) == 4294967296
+
+
+# ---------------------------------------------------------------------------------------------- RFC 4251 section 5 data types
+def chr8(v):
+    """one byte (engine primitive when symbolic)"""
+    return bytes([v % 256])
+
+
+def u8(v):
+    return chr8(v)
+
+
+def u16(v):
+    return chr8(v // 256 % 256) + chr8(v % 256)
+
+
+def u32(v):
+    """uint32: four bytes in the order of decreasing significance (network byte order)"""
+    return chr8(v // 16777216 % 256) + chr8(v // 65536 % 256) + chr8(v // 256 % 256) + chr8(v % 256)
+
+
+def enc_string(b):
+    """string: uint32 length followed by that many bytes"""
+    return u32(len(b)) + b
+
+
+def enc_bool(v):
+    return b'\x01' if v else b'\x00'
+
+
+@lemma('int;int', requires='a >= 0 and b >= 0', induction='b', smaller='b - 1', base='b == 0', fuel=2)
+def pow256_add(a, b):
+    """L-POW"""
+    return pow256(a + b) == pow256(a) * pow256(b) and pow256(b) >= 1
